@@ -2966,9 +2966,14 @@ def member_cause(S, v, results):
     """names the input class of a membership failure in words (for known_findings.json)"""
     import odl
     from odl.set import sets as M
-    if any(r.startswith('x:ValueError') for r in results) and _has_seq(v) and _tree_has(
+    # C20-F14: `seq in FiniteSet(<NumPy scalars>)` compares the sequence with each NumPy scalar by
+    # broadcasting: ValueError for longer sequences, and for a length-1 sequence the one-entry
+    # array is truthy, so the sequence is ACCEPTED as a member. Named only when such a FiniteSet
+    # node of the tree itself misanswers for this very value.
+    if _has_seq(v) and _tree_has(
             S, lambda o: type(o) is M.FiniteSet and any(isinstance(e, np.generic)
-                                                        for e in o.elements)):
+                                                        for e in o.elements)
+            and _mem(o, v) != 'f'):
         return ' cause=sequence-tested-against-FiniteSet-with-NumPy-scalar-elements'
     if _has_np_complex(v) and _tree_has(S, lambda o: type(o) is odl.IntervalProd):
         return ' cause=NumPy-complex-scalar-offered-to-IntervalProd'
